@@ -36,11 +36,16 @@ type Opts struct {
 	MaxWidth  int
 	OddKeys   bool // include keys like "" and "a/b"
 	RawBlocks bool
+	// NumLookalikes: map keys that are different strings but parse to the same integer as another key of the
+	// pool ("01", "+1", "-0", "00" next to "0", "1", "2") — slash-free and non-empty, so usable where paths are
+	// compared as strings.
+	NumLookalikes bool
 	// Missing: probability numerator (of 8) that a generated link points to a block that is not stored.
 	Missing int
 }
 
 var keyPool = []string{"a", "b", "c", "d", "x", "0", "1", "2", "k"}
+var numLookalikes = []string{"01", "+1", "-0", "00", "+0", "001", "02", "1 ", "1.0", "0x1"}
 var oddKeys = []string{"", "a/b", "..", ".", "-1", "ü", "00", "+1", "-", "caf\xe9", "\xff\xfe", "k\x80v", "\xef\xbf\xbd", "\x00", "a\x00b", "%2F", "a b", "\u2028", "😀"}
 
 func link(codec uint64, block []byte) string {
@@ -137,6 +142,9 @@ func (g *Graph) genVal(r *fw.RNG, o Opts, depth int, keyset map[string]bool, for
 		k := keyPool[r.Intn(len(keyPool))]
 		if o.OddKeys && r.Chance(1, 8) {
 			k = oddKeys[r.Intn(len(oddKeys))]
+		}
+		if o.NumLookalikes && r.Chance(1, 5) {
+			k = numLookalikes[r.Intn(len(numLookalikes))]
 		}
 		if seen[k] {
 			continue
